@@ -42,7 +42,7 @@ type C15Case struct {
 }
 
 func stallPoints(stack string) []string {
-	post := []string{"nothing", "head-k", "head-k", "between", "head-two-parts", "second-head-k", "pipelined-head-k"}
+	post := []string{"nothing", "head-k", "head-k", "between", "between-slow", "head-two-parts", "second-head-k", "pipelined-head-k"}
 	switch stack {
 	case "tls":
 		return append([]string{"tls-nothing", "tls-hello-k", "tls-hello-k"}, post...)
@@ -53,7 +53,7 @@ func stallPoints(stack string) []string {
 	case "mitm":
 		return append([]string{"mitm-nothing", "mitm-hello-k", "mitm-hello-k"}, post...)
 	case "plain-shortidle":
-		return []string{"head-k", "head-k", "head-two-parts", "second-head-k", "pipelined-head-k", "nothing", "between"}
+		return []string{"head-k", "head-k", "head-two-parts", "second-head-k", "pipelined-head-k", "nothing", "between", "between-slow"}
 	case "plain-longidle":
 		// idle-timeout 2.5 s: tells a read-header-timeout that is really applied from one that is
 		// replaced by the idle deadline (limit + 1.5 s < idle)
@@ -345,6 +345,26 @@ func (e *c15Env) stall(stack string, s C15Stall, vid string) (r stallResult) {
 		conn.SetReadDeadline(time.Now().Add(5 * time.Second))
 		if m, err := ReadResponse(br, "GET"); err != nil || m.Status != 200 {
 			r.setup = fmt.Errorf("exchange before the idle phase: %v", err)
+			return
+		}
+		wait()
+	case "between-slow":
+		// the origin takes a good part of the idle limit (k even) or more than the whole of it (k odd) to answer: the
+		// wait for the next request begins when that exchange is over, whatever it took. The answer cannot have left the
+		// origin earlier than the delay after the request was sent - the earliest start of the idle timer.
+		delay := idleLimit * 6 / 10
+		if s.K%2 == 1 {
+			delay = idleLimit * 13 / 10
+		}
+		r.limit, r.name = idleLimit, fmt.Sprintf("idle-timeout (after an exchange the origin took %v for)", delay)
+		scripts.Store(vid, &OriginScript{Parts: [][]byte{{}, OKResponse("slow")}, Gate: func(int) bool { time.Sleep(delay); return true }})
+		defer scripts.Delete(vid)
+		r.ref = time.Now().Add(delay)
+		send([]byte(head))
+		br := bufio.NewReader(conn)
+		conn.SetReadDeadline(time.Now().Add(delay + 5*time.Second))
+		if m, err := ReadResponse(br, "GET"); err != nil || m.Status != 200 {
+			r.setup = fmt.Errorf("slow exchange before the idle phase: %v", err)
 			return
 		}
 		wait()
